@@ -31,9 +31,11 @@ def cases(tier, seed):
     out = []
     for name, spec in zoo.SPECS.items():
         for D in spec["dims"]:
+            if tier == "quick" and D == 3 and spec["dims"] != (3,) and env.crc(name) % 4:
+                continue            # quick tier: 3D for the 3D-only classes and a quarter of the others (all of them in the thorough tier)
             reps = 1 if tier == "quick" else 3
             for rep in range(reps):
-                N = {1: 10 + rep, 2: 6 + rep, 3: 5 + (rep % 2)}[D]
+                N = zoo.nontrivial_N(name, {1: 10 + rep, 2: 6 + rep, 3: 5 + (rep % 2)}[D])
                 out.append(dict(kind="programs", cls=name, D=D, N=N, v=rep, rs=[seed, env.crc(name), D, rep], cost={1: 1, 2: 2, 3: 5}[D]))
                 out.append(dict(kind="params", cls=name, D=D, N=N, v=rep, rs=[seed, env.crc(name), D, rep, 7], cost={1: 1, 2: 2, 3: 5}[D]))
     for w in ("repeated", "forced"):
